@@ -100,7 +100,37 @@ fn check_all(run: &Run, x: &Dec, t: &mut Tally) {
 
 fn replay(case: &Value) -> Vec<Violation> {
     if case.get("ctor").is_some() {
-        return vec![]; // constructor cases are re-run through the sequential sub-domain
+        // constructor case: re-run every constructor form of the recorded type on the recorded value
+        let (ty, val) = (case["type"].as_str().unwrap_or(""), case["value"].as_str().unwrap_or(""));
+        let mut out = vec![];
+        macro_rules! one {
+            ($t:ty) => {{
+                let v: $t = val.parse().expect("constructor value");
+                let want = Dec { n: BigInt::from(v), s: 0 };
+                let forms: Vec<(&str, Result<BigDecimal, String>)> = vec![("From<T>", guard(|| BigDecimal::from(v))), ("From<&T>", guard(|| BigDecimal::from(&v))), ("From<(T,i64)>", guard(|| BigDecimal::from((v, 0i64))))];
+                for (name, got) in forms {
+                    match got {
+                        Ok(x) if dec(&x) == want => {}
+                        Ok(x) => out.push(Violation::new(&format!("construct {}", name), "wrong_value", case.clone(), want.show(), show(&x))),
+                        Err(p) => out.push(Violation::new(&format!("construct {}", name), "panic", case.clone(), want.show(), p)),
+                    }
+                }
+            }};
+        }
+        match ty {
+            "u8" => one!(u8),
+            "u16" => one!(u16),
+            "u32" => one!(u32),
+            "u64" => one!(u64),
+            "u128" => one!(u128),
+            "i8" => one!(i8),
+            "i16" => one!(i16),
+            "i32" => one!(i32),
+            "i64" => one!(i64),
+            "i128" => one!(i128),
+            _ => {}
+        }
+        return out;
     }
     let x = jd(&case["x"]);
     let c = CONVS.into_iter().find(|c| *c == case["conv"].as_str().unwrap()).unwrap();
